@@ -333,6 +333,10 @@ def c04_jobs(tier):
     jobs.append(des("event-waiters-p3", "notif", b, dl, procs=3, prios="0,0,1", budget=3,
                     ops="hold0,hold1,tadd1,evsched1,evsched2,waite0,waite1,evcancel0,evcancel1,int1,int2,stop1,exit",
                     script0="evsched2,hold1,evcancel0", script1="waite0,hold1", script2="waite0,hold1"))
+    # ... cancelled by pattern instead of by handle: the waiters are told all the same
+    jobs.append(des("event-waiters-pattern-cancel-p3", "notif", b, dl, procs=3, prios="0,0,1", budget=3,
+                    ops="hold0,hold1,tadd1,tadd2u,evsched1,evsched2,waite0,waite1,evcancel0p,evcancel1p,evcancel0,int1,exit",
+                    script0="evsched2,hold1,evcancel0p", script1="tadd2u,waite0,hold1", script2="waite0,hold1"))
     # the same on a clock that starts below zero and moves in steps of 0.1 (sums that are not exact in binary: instants
     # that coincide on the integer clock may now lie one unit in the last place apart)
     jobs.append(des("core-p2-fractional-clock", "notif", b, dl, procs=2, prios="0,0", budget=3, ops=C04_OPS,
@@ -601,6 +605,10 @@ def c09_jobs(tier):
         des("pool-holders-p4", "endoflife", b, dl, procs=4, prios="0,1,2,1", budget=3, pool=6,
             ops="pacq1,pacq2,pacq3,prel1,hold0,hold1,stop0,stop1,stop2,stopself,exit,return,int0,waitp0",
             script0="pacq1,hold1,exit", script1="pacq3,hold2", script2="pacq2,hold1,stopself", script3="hold0,pacq3,hold1"),
+        # the end comes from inside the dispatcher: the action of an event stops (or stops and starts again) one of the
+        # one to four processes that wait for that very event (harness c10_ramps, mode evstop: every victim x every outcome)
+        dict(name="ended-by-the-awaited-event", harness="c10_ramps", opts=dict(mode="evstop", prop="c09"), bound_min=0,
+             bound_max=0, deadline=300, crash_is_violation=True, recycle=200, run_timeout=60),
     ]
 
 
@@ -809,6 +817,13 @@ def c14_jobs(tier):
         des("all-stopped-twice", "history", 2, dl, procs=3, prios="0,1,1", budget=4, res=1, pool=3, oq=2, pq=2,
             ops="recon,recoff,restop,racq0,rrel0,pacq2,prel2,oqput0,oqget,pqput1,pqget,hold0,hold1,exit",
             script0="recon,racq0,pacq2,oqput0,pqput1,recoff,hold2", script1="hold1,oqget,pqget,restop", script2="hold2,restop"),
+        # recording switched off and, after the state has changed unrecorded, on again: a second window in the same history
+        des("resource-two-windows", "history", b, dl, procs=3, prios="0,1,2", budget=5, res=1,
+            ops="recon,recoff,rerec,restop,racq0,rrel0,rpre0,hold0,hold1,exit",
+            script0="recon,racq0,hold1,recoff,rrel0", script1="hold2,rerec,racq0,hold1,recoff", script2="hold3,rpre0,hold1"),
+        des("all-two-windows", "history", 2, dl, procs=3, prios="0,1,1", budget=5, res=1, pool=3, buf=3, oq=2, pq=2,
+            ops="recon,recoff,rerec,racq0,rrel0,pacq2,prel2,bput2,bget1,oqput0,oqget,pqput1,pqget,hold0,hold1,exit",
+            script0="recon,racq0,pacq2,bput2,recoff", script1="hold1,oqput0,pqput1,rerec,hold1", script2="hold2,bget1,oqget,recoff"),
         # time stamps and durations that are not exact in binary, recording switched on before and after zero
         des("pool-fractional-clock", "history", b, dl, procs=3, prios="0,1,2", budget=4, pool=3, tscale="0.1", t0="-0.15",
             ops="recon,recoff,pacq1,pacq2,ppre2,prel1,prel2,hold0,hold1,hold2,int0,exit",
@@ -941,6 +956,12 @@ def c10_jobs(tier):
         dict(des("union-p3-fptrap", "none", 2, dl, procs=3, prios="0,1,2", budget=3, res=1, pool=2, buf=2, oq=1, pq=1, cond=1,
                  subscribe="res", ops=UNION_OPS, script0="racq0,hold1,rrel0", script1="pacq2,hold1,prel1",
                  script2="tadd1,bget2,hold1", fptrap=1), crash_is_violation=True),
+        # priorities changed of processes that have just been granted something (taken off the waiting list, wake-up pending)
+        # while others still wait there, and of waiters at every kind of guard
+        dict(des("reprioritise-granted-waiter-p3", "none", b + 1, dl, procs=3, prios="0,0,0", budget=4, res=1, pool=2, buf=2,
+                 ops="racq0,rrel0,pacq2,prel2,bget1,bput1,prio0.1,prio1.1,prio1.-1,prio2.1,hold0,hold1,int1,exit",
+                 script0="racq0,hold1,rrel0,prio1.1", script1="racq0,hold1,rrel0", script2="racq0,hold1,rrel0"),
+             crash_is_violation=True),
         ramp("evwait"), ramp("procwait"), ramp("guardq"), ramp("holders"), ramp("timers", 600), ramp("oqueue", 600),
         ramp("observers", 600), ramp("closing"), ramp("restart"), ramp("manywaiters", 900),
         # a steady population of 2-12 pending events over 3000 executions, every pending handle queried and touched each time
